@@ -41,6 +41,8 @@ type yieldState struct {
 	recursive int
 	// recursiveMet: ... of which a writer arrived while the reader waited
 	recursiveMet int
+	// windowsMet: rare writers that found a goroutine in the window after its unlock
+	windowsMet int
 }
 
 func yieldHash(seed uint64, site string, n uint64) uint64 {
@@ -127,17 +129,22 @@ func heldByGoroutine(id uint64) (n int, known bool) {
 func installYield(seed uint64) *yieldState {
 	st := &yieldState{seed: seed, count: map[string]uint64{}, sites: map[string]bool{}, held: map[uint64]int{}}
 	activeYield.Store(st)
-	plain := func(site string) {
+	decide := func(site string) time.Duration {
 		ok, n := st.visit(site)
 		if !ok {
-			return
+			return 0
 		}
 		x := yieldHash(seed, site, n)
 		if n > 2 && x%2 != 0 {
-			return // rarely reached sites (a periodic background pass) always delay
+			return 0 // rarely reached sites (a periodic background pass) always delay
 		}
-		atomic.AddInt64(&st.fired, 1)
-		time.Sleep(time.Duration(1+(x>>8)%3) * time.Millisecond)
+		return time.Duration(1+(x>>8)%3) * time.Millisecond
+	}
+	plain := func(site string) {
+		if d := decide(site); d > 0 {
+			atomic.AddInt64(&st.fired, 1)
+			time.Sleep(d)
+		}
 	}
 	simyield.SetHook(plain)
 	// Read locks taken twice. A goroutine that holds a read lock and asks for
@@ -151,6 +158,15 @@ func installYield(seed uint64) *yieldState {
 	var rmu simkit.QuietMutex
 	rheld := map[uint64]map[uintptr]int{}    // goroutine -> mutex -> read locks held
 	waiting := map[uintptr][]chan struct{}{} // mutex -> readers waiting for a writer
+	// "Used after unlock". A goroutine delayed right after it released mutex M
+	// sits in the window in which it may still use what M protects. A writer
+	// that comes by rarely (a periodic background pass: its Lock site has been
+	// visited at most three times) waits at its Lock, up to 20 simulated
+	// milliseconds, for some goroutine to be in that window of the same mutex,
+	// so that its critical section runs inside it.
+	inWindow := map[uintptr]int{}
+	wantWindow := map[uintptr][]chan struct{}{}
+	lockVisits := map[string]int{}
 	simyield.SetHookM(func(site string, mu any) {
 		kind := site[strings.LastIndexByte(site, ':')+1:]
 		id := mutexID(mu)
@@ -199,22 +215,71 @@ func installYield(seed uint64) *yieldState {
 				}
 				rheld[g][id]++
 				rmu.Unlock()
-			case "after-runlock":
+			case "after-unlock", "after-runlock":
+				if kind == "after-runlock" {
+					rmu.Lock()
+					if rheld[g][id] > 0 {
+						rheld[g][id]--
+						if rheld[g][id] == 0 {
+							delete(rheld[g], id)
+						}
+						if len(rheld[g]) == 0 {
+							delete(rheld, g)
+						}
+					}
+					rmu.Unlock()
+				}
+				if d := decide(site); d > 0 {
+					atomic.AddInt64(&st.fired, 1)
+					rmu.Lock()
+					inWindow[id]++
+					for _, ch := range wantWindow[id] {
+						select {
+						case ch <- struct{}{}:
+						default:
+						}
+					}
+					rmu.Unlock()
+					time.Sleep(d)
+					rmu.Lock()
+					inWindow[id]--
+					rmu.Unlock()
+				}
+				return
+			case "before-lock":
 				rmu.Lock()
-				if rheld[g][id] > 0 {
-					rheld[g][id]--
-					if rheld[g][id] == 0 {
-						delete(rheld[g], id)
-					}
-					if len(rheld[g]) == 0 {
-						delete(rheld, g)
-					}
+				lockVisits[site]++
+				rare := lockVisits[site] <= 3
+				var wch chan struct{}
+				if rare && inWindow[id] == 0 {
+					wch = make(chan struct{}, 1)
+					wantWindow[id] = append(wantWindow[id], wch)
 				}
 				rmu.Unlock()
-			case "before-lock":
-				// (after the point's own delay: the next thing this goroutine does
-				// is to ask for the write lock)
-				plain(site)
+				if n, known := heldByGoroutine(g); wch != nil && known && n == 0 {
+					select {
+					case <-wch:
+						st.mu.Lock()
+						st.windowsMet++
+						st.mu.Unlock()
+					case <-time.After(20 * time.Millisecond):
+					}
+				} else {
+					// (after the point's own delay: the next thing this goroutine does
+					// is to ask for the write lock)
+					plain(site)
+				}
+				if wch != nil {
+					rmu.Lock()
+					ws := wantWindow[id]
+					for i := range ws {
+						if ws[i] == wch {
+							wantWindow[id] = append(ws[:i:i], ws[i+1:]...)
+							break
+						}
+					}
+					rmu.Unlock()
+				}
 				rmu.Lock()
 				for _, ch := range waiting[id] {
 					select {
@@ -286,4 +351,10 @@ func (st *yieldState) recursiveReadLocks() (n, metWriter int) {
 	st.mu.Lock()
 	defer st.mu.Unlock()
 	return st.recursive, st.recursiveMet
+}
+
+func (st *yieldState) windows() int {
+	st.mu.Lock()
+	defer st.mu.Unlock()
+	return st.windowsMet
 }
